@@ -66,6 +66,10 @@ def build(force_full=False):
         import gen_tables
         gen_tables.fallbacks.clear()
         res.gen = gen_tables.emit()
+        import gen_logic
+        res.logic = gen_logic.emit()         # decisions (operators, offsets, sortedness) of parser.py / serialization.py / canonicalization.py -> coq/gen/Logic.v
+        if isinstance(res.gen, dict):
+            res.gen["fallbacks"] = list(res.gen.get("fallbacks", [])) + ["logic: " + f for f in res.logic["fallbacks"]]
         import gen_antlr
         res.antlr = gen_antlr.emit()       # tucanParser.py -> coq/gen/Antlr.v (fail-closed translator)
         import gen_antlr_lexer
